@@ -54,6 +54,10 @@ package baseapp
 //@   modifies everything
 //@   keeps ms.
 //@   may_panic
+// the os.Exit in the block-gas defer (block gas meter consumed < its value at the start of the tx) is accepted, not proved
+// unreachable: no GasMeter method decreases the meter, but the ante handler and the message handlers are opaque function
+// values here (they could hand back a context with another block gas meter)
+//@   may_exit
 //@   ensures [noflush] mode != 2 ==> ms.cwrites == old(ms.cwrites)
 
 // C14: a store query without a height is answered at the last committed height - that height is what the multistore
